@@ -297,6 +297,10 @@ class MailboxData(MailboxDataInterface[Message]):
 
     async def get(self, uid: int, cached_msg: CachedMessage) -> Message:
         if uid < 1 or uid > self._max_uid:
+            if isinstance(cached_msg, Message):
+                # known to the session from the mailbox that had this name
+                # before, e.g. INBOX was renamed
+                return Message.copy(cached_msg, expunged=True)
             raise IndexError(uid)
         async with self.messages_lock.read_lock():
             msg = self._messages.get(uid)
